@@ -19,16 +19,17 @@
 
    Definitions only. *)
 From MS Require Export Bytes.
+From MSgen Require SrcConsts.   (* the identifiers follow src/proto/mod.rs, read from the source text on every run *)
 
 (* protocol ids (as published; the same numbering as Proto.v) *)
-Definition ID_HTTP : N := 1.
-Definition ID_STUN : N := 2.
-Definition ID_SSH : N := 3.
-Definition ID_GHOST : N := 4.
-Definition ID_RPC_TCP : N := 5.
-Definition ID_RPC_UDP : N := 6.
-Definition ID_SMB1 : N := 7.
-Definition ID_SMB2 : N := 8.
+Definition ID_HTTP : N := MSgen.SrcConsts.proto_mod__PROTO_HTTP.
+Definition ID_STUN : N := MSgen.SrcConsts.proto_mod__PROTO_STUN.
+Definition ID_SSH : N := MSgen.SrcConsts.proto_mod__PROTO_SSH.
+Definition ID_GHOST : N := MSgen.SrcConsts.proto_mod__PROTO_GHOST.
+Definition ID_RPC_TCP : N := MSgen.SrcConsts.proto_mod__PROTO_RPC_TCP.
+Definition ID_RPC_UDP : N := MSgen.SrcConsts.proto_mod__PROTO_RPC_UDP.
+Definition ID_SMB1 : N := MSgen.SrcConsts.proto_mod__PROTO_SMB1.
+Definition ID_SMB2 : N := MSgen.SrcConsts.proto_mod__PROTO_SMB2.
 
 Record sig := { s_pat : list (option N);   (* None = '*' *)
                 s_end : bool;               (* anchored at the end of the datagram *)
